@@ -355,9 +355,10 @@ def MycatPartitionMurmurHashShard.FindForKey (seed : Int) (bucketMap : List (Int
 /-- `MaxNumKey`. -/
 def MaxNumKey : Int := 2 ^ 63 - 1
 
-/-- `NumKeyRange.Contains`. -/
+/-- `NumKeyRange.Contains`: the half-open interval `[Start, End)` (before
+    e83712b `End == MaxNumKey` was read as an open end). -/
 def NumKeyRange.Contains (kr : Int × Int) (i : Int) : Bool :=
-  kr.1 ≤ i && (kr.2 = MaxNumKey || i < kr.2)
+  kr.1 ≤ i && i < kr.2
 
 /-- `ParseNumSharding`: `tableCount` ranges `[i*limit, (i+1)*limit)`; the products
     are Go `int` products (wrap-around); a negative `tableCount` makes `make` panic. -/
@@ -463,6 +464,8 @@ def DateYearShard.FindForKey (civilOf : Int → Civil) : Key → Out Int
 /-- The timestamp branches of `getNumYearMonth`: format, slice, Atoi. -/
 def yearMonthOfUnix (civilOf : Int → Civil) (v : Int) : Out Int :=
   let dateStr := fmtDate (civilOf v)
+  -- `len(dateStr) != len(timeFormat)`: a year outside 0000-9999 (ab7347b)
+  if dateStr.length ≠ 10 then .err .invalidDate else
   match strSlice dateStr 0 4, strSlice dateStr 5 7 with
   | .ok a, .ok b => match parseInt64 (a ++ b) with
     | some n => .ok n
@@ -486,6 +489,7 @@ def DateMonthShard.FindForKey (civilOf : Int → Civil) : Key → Out Int
 /-- The timestamp branches of `getNumYearMonthDay`. -/
 def yearMonthDayOfUnix (civilOf : Int → Civil) (v : Int) : Out Int :=
   let dateStr := fmtDate (civilOf v)
+  if dateStr.length ≠ 10 then .err .invalidDate else
   match strSlice dateStr 0 4, strSlice dateStr 5 7, strSlice dateStr 8 10 with
   | .ok a, .ok b, .ok c => match parseInt64 (a ++ b ++ c) with
     | some n => .ok n
